@@ -171,7 +171,8 @@ def gen_plan(seed, tier, idx):
         if libapi.is_private(spec):
             coin = (1 if (spec.get("testnet") or spec.get("key", "x")[0] in "tuv") else 0) + HARD
             purpose = rng.choice([44, 49, 84]) + HARD
-            for path in ([purpose, coin, HARD], [purpose, coin, HARD, 0]):
+            other = rng.choice([p_ for p_ in (44, 49, 84) if p_ + HARD != purpose]) + HARD
+            for path in ([purpose, coin, HARD], [purpose, coin, HARD, 0], [other, coin, HARD]):
                 name = "%s.s%d" % (r, k)
                 k += 1
                 setup.append({"op": "by_path", "root": r, "s": fmt_path(path), "path": path, "out": name})
@@ -218,7 +219,16 @@ def gen_plan(seed, tier, idx):
         for j in range(lens[c]):
             out = "c%d.%d" % (c, j)
             x = rng.random()
-            if x < 0.05:
+            if x < 0.03 and ops and ops[-1]["op"] == "by_path" and ops[-1]["path"] and ops[-1]["path"][-1] < HARD \
+                    and len(str(ops[-1]["path"][-1])) < 9:
+                # textual-prefix pair: the next path continues the previous one by ONE CHARACTER (m/../1 then m/../19),
+                # which a string-prefix shortcut would mistake for a deeper path
+                prev = ops[-1]
+                np_ = prev["path"][:-1] + [int(str(prev["path"][-1]) + rng.choice("0159"))]
+                s2 = prev["s"] + str(np_[-1])[-1]
+                ops.append({"op": "by_path", "root": prev["root"], "s": s2, "path": np_, "out": out})
+                g._add(out, prev["root"], np_, libapi.is_private(libapi.ROOTS[prev["root"]]), owner)
+            elif x < 0.05:
                 # a NEW wallet object for one of the roots, created in the middle of the history
                 r = rng.choice(roots)
                 nm = "%s~%d%d" % (r, c, j)
@@ -266,6 +276,27 @@ def gen_plan(seed, tier, idx):
                     ops[-1]["il"] = [again]
                     del ops[-1]["i"]
                 g._add("c%d.r" % c, hd["root"], hd["path"] + [again], hd["private"], "c%d" % c)
+    if config != "single" and rng.random() < 0.5:
+        # family burst: every client issues a request of the same family (BIP85 / paper wallet / extended keys) on the
+        # SAME wallet at about the same point of its history, and repeats one later: per-wallet scratch state
+        # (a remembered parent, a current version, a current account) must survive concurrent use
+        fam = rng.choice(["bip85", "bip85", "paper", "ext_keys"])
+        priv = [r for r in roots if libapi.is_private(libapi.ROOTS[r])]
+        r = rng.choice(priv)
+        apps = [("mnemonic", 12), ("wif", None), ("xprv", None), ("hex", 32), ("pwd", 21), ("mnemonic", 24)]
+        rng.shuffle(apps)
+        accts = [h for h in g.by_owner["setup"] if g.handles[h]["root"] == r and g.handles[h]["private"]]
+        for c, ops in enumerate(clients):
+            def mk_op(k):
+                if fam == "bip85":
+                    a = apps[(c + k) % len(apps)]
+                    return {"op": "bip85", "root": r, "app": a[0], "a": a[1], "i": rng.choice([0, 1])}
+                if fam == "paper":
+                    return {"op": "paper", "root": r, "which": ["bip44", "bip49", "bip84", "generate"][(c + k) % 4],
+                            "account": (c + k) % 3, "interval": [0, 1]}
+                return {"op": "ext_keys", "h": rng.choice(accts) if accts else "%s.m" % r}
+            ops.insert(rng.randint(0, min(2, len(ops))), mk_op(0))
+            ops.append(mk_op(1))
     for c, ops in enumerate(clients):
         for j, op in enumerate(ops):
             op["id"] = "c%d#%d" % (c, j)
@@ -278,7 +309,8 @@ def gen_plan(seed, tier, idx):
         sched = {"mode": "seeded", "policy": "opgran", "p_op": rng.choice([0.3, 0.7, 1.0]),
                  "sched_seed": rng.getrandbits(32)}
     else:
-        pol = rng.choice(["bernoulli", "bernoulli", "conflict", "conflict", "sparse", "atomic", "atomic"])
+        pol = rng.choice(["bernoulli", "bernoulli", "conflict", "conflict", "sparse", "atomic", "atomic", "publish",
+                          "publish", "publish"])
         sched = {"mode": "seeded", "policy": pol, "sched_seed": rng.getrandbits(32)}
         if pol == "bernoulli":
             sched["p"] = rng.choice([0.02, 0.1, 0.3])
@@ -286,6 +318,8 @@ def gen_plan(seed, tier, idx):
         elif pol == "conflict":
             sched["p"] = rng.choice([0.1, 0.3, 0.5])
             sched["p_op"] = rng.choice([0.3, 0.7])
+        elif pol == "publish":
+            sched["k"] = rng.choice([1, 2, 3])
         elif pol == "atomic":
             sched["mod"] = rng.choice([12, 25, 40])
             sched["res"] = rng.randrange(sched["mod"])
@@ -494,10 +528,11 @@ def _run_child(plan):
 
         def body():
             for j, op in enumerate(ops):
-                b.next_obj[c] = obj_of(op)
+                b.next_obj[c], b.next_kind[c] = obj_of(op), op["op"]
                 b.begin_op(c, op.get("id", "c%d#%d" % (c, j)))
                 b.yield_point(c, "op", is_op=True)
                 b.next_obj[c] = obj_of(ops[j + 1]) if j + 1 < len(ops) else None
+                b.next_kind[c] = ops[j + 1]["op"] if j + 1 < len(ops) else None
                 ex.do("c%d" % c, j, op, b, c)
         return body
 
